@@ -204,7 +204,16 @@ class ProgramGen:
             kind = rng.choice([".word", ".word", ".byte", ".dword", "implicit"])
             if self.f.get("linear") and kind == ".dword":
                 kind = ".word"
-            if kind != ".byte":
+            if self.f.get("odd_words") and self.parity in (0, 1) and rng.random() < 0.012:
+                kind = "implicit"
+                if self.parity == 0:
+                    self.items.append(Item(kind="dir", name=".byte", args=[("lit", rng.randrange(0, 256))]))
+                    self.parity = 1
+            if kind == "implicit" and self.parity == 1 and self.f.get("odd_words") and rng.random() < 0.7:
+                # a word list left on an odd address: refused ('odd-address'); were it accepted, the byte it inserts
+                # must be counted in every later address. The rest of the program is aligned as if it were (with that byte)
+                self.parity = 0
+            elif kind != ".byte":
                 self.align_even()
             if kind == ".byte":
                 args = [("lit", rng.randrange(-128, 256)) for _ in range(n)]
